@@ -170,7 +170,17 @@ Inductive lead (g : cfg) (s : state) : list instr -> Prop :=
 | LA2 : forall c r, tail_ok r = true -> acc_pre (getc s c) -> lead g s (KAccTry c :: r)
 | LA3 : forall c r, tail_ok r = true -> acc_pre (getc s c) -> lead g s (IInitGso c :: IInitSbl c :: IAddChan c :: r)
 | LA4 : forall c r, tail_ok r = true -> acc_pre (getc s c) -> lead g s (IInitSbl c :: IAddChan c :: r)
-| LA5 : forall c r, tail_ok r = true -> acc_pre (getc s c) -> lead g s (IAddChan c :: r).
+| LA5 : forall c r, tail_ok r = true -> acc_pre (getc s c) -> lead g s (IAddChan c :: r)
+(* ... and when the channel is constructed inside handle_accept's try ([init_guarded]) *)
+| LG1 : forall c r, tail_ok r = true -> acc_pre (getc s c) -> init_guarded g = true ->
+    lead g s (ISetOpts c :: IInitGso c :: IInitSbl c :: IAddChan c :: KAccTry c :: r)
+| LG2 : forall c r, tail_ok r = true -> acc_pre (getc s c) -> init_guarded g = true ->
+    lead g s (IInitGso c :: IInitSbl c :: IAddChan c :: KAccTry c :: r)
+| LG3 : forall c r, tail_ok r = true -> acc_pre (getc s c) -> init_guarded g = true ->
+    lead g s (IInitSbl c :: IAddChan c :: KAccTry c :: r)
+| LG4 : forall c r, tail_ok r = true -> acc_pre (getc s c) -> init_guarded g = true ->
+    lead g s (IAddChan c :: KAccTry c :: r)
+| LG5 : forall c r, tail_ok r = true -> init_guarded g = true -> lead g s (KAccTry c :: r).
 
 (* ---- J: consistency of the teardown-relevant fields ------------------------------------ *)
 Record chan_ok (x : chan_st) (c : chan) (io : thread_st) : Prop := {
@@ -435,6 +445,11 @@ Proof.
   - apply LA3; auto. eapply acc_pre_tv; eauto.
   - apply LA4; auto. eapply acc_pre_tv; eauto.
   - apply LA5; auto. eapply acc_pre_tv; eauto.
+  - apply LG1; auto. eapply acc_pre_tv; eauto.
+  - apply LG2; auto. eapply acc_pre_tv; eauto.
+  - apply LG3; auto. eapply acc_pre_tv; eauto.
+  - apply LG4; auto. eapply acc_pre_tv; eauto.
+  - apply LG5; auto.
 Qed.
 
 Lemma tail_ok_lead_head : forall i r, tail_ok (i :: r) = true -> chain_only i = false /\ tail_ok r = true.
@@ -797,7 +812,8 @@ Proof.
   pose proof HS as (Hw & Hc & Hs & [K1 K2 K3]). specialize (K1 R).
   inversion K1 as [rr Ht|? ? ? rest Hopen Ht|c r Ht|c r Ht|c r Ht Hb|c r Ht Hb|c r Ht Hb|c r Ht Hb|c r Ht Hb Hm
                  |c v r Ht Hb Hm Hv|c v r Ht Hb Hm Hf Hv|c r Ht Hb Hm Hf Ha|c r Ht Hb Hm Hf Ha Hso|c r Ht Hb Hm Ha Hk
-                 |c r Ht Hp|c r Ht Hp|c r Ht Hp|c r Ht Hp|c r Ht Hp]; stack_eq H0; rewrite H0 in K2.
+                 |c r Ht Hp|c r Ht Hp|c r Ht Hp|c r Ht Hp|c r Ht Hp
+                 |c r Ht Hp Hg|c r Ht Hp Hg|c r Ht Hp Hg|c r Ht Hp Hg|c r Ht Hg]; stack_eq H0; rewrite H0 in K2.
   - (* LT: an ordinary instruction *)
     destruct rr as [|i rest].
     { unfold step in H. rewrite R, H0 in H. discriminate. }
@@ -839,9 +855,14 @@ Proof.
            ++ rewrite getc_setc_same. destruct (Hc c) as [J1 J2 J3 J4 J5 J6 J7].
               destruct (J3 Eacc) as (E1 & E2 & E3 & E4).
               constructor; simpl; auto; try (intro; congruence); try (intros; congruence); try (rewrite E2; auto).
-           ++ apply ioK_norm; auto.
-              ** apply LA1; auto. rewrite getc_setc_same. destruct (Hc c) as [J1 J2 J3 J4 J5 J6 J7].
-                 destruct (J3 Eacc) as (E1 & E2 & E3 & E4). repeat split; simpl; auto.
+           ++ assert (AP : acc_pre (getc (setc s c (upd_accepted (getc s c))) c)).
+              { rewrite getc_setc_same. destruct (Hc c) as [J1 J2 J3 J4 J5 J6 J7].
+                destruct (J3 Eacc) as (E1 & E2 & E3 & E4). repeat split; simpl; auto. }
+              destruct (init_guarded g) eqn:Eg; apply ioK_norm; auto.
+              ** apply LG1; auto.
+              ** apply (covb_app_cov [ISetOpts c; IInitGso c; IInitSbl c; IAddChan c; KAccTry c] rest);
+                   [eapply covb_head; eauto|eapply covb_tail; eauto].
+              ** apply LA1; auto.
               ** apply (covb_app_cov [ISetOpts c; KAccTry c] rest); [eapply covb_head; eauto|eapply covb_tail; eauto].
         -- injection H as <- <-. cbn [app].
            refine (io_finish g s s _ A HS _ _ _ _ _); auto.
@@ -1021,7 +1042,10 @@ Proof.
   - (* LA2: leave the try, construct the channel *)
     assert (HQ : forall d, quiet (getc s d)).
     { eapply all_quiet; eauto; intros d rr E; rewrite H0 in E; discriminate. }
-    unfold step in H. rewrite R, H0 in H. cbn [exec] in H. injection H as <- <-.
+    unfold step in H. rewrite R, H0 in H. cbn [exec] in H. destruct (init_guarded g) eqn:Eg; injection H as <- <-.
+    { refine (io_finish g s s _ A HS _ _ _ _ _); auto.
+      * eapply chan_ok_quiet; eauto.
+      * apply ioK_norm; auto; try (apply LT; auto). eapply covb_tail; eauto. }
     refine (io_finish g s s _ A HS _ _ _ _ _); auto.
     * eapply chan_ok_quiet; eauto.
     * apply ioK_norm; auto; try (apply LA3; auto).
@@ -1066,6 +1090,68 @@ Proof.
     + rewrite getc_setc_same. constructor; simpl; auto; try (intro; congruence); try (intros; congruence).
       all: try (intros; lia).
     + apply ioK_norm; auto; try (apply LT; auto); try (eapply covb_tail; eauto).
+  - (* LG1: set_socket_options, inside the try that also covers the constructor *)
+    assert (HQ : forall d, quiet (getc s d)).
+    { eapply all_quiet; eauto; intros d rr E; rewrite H0 in E; discriminate. }
+    unfold step in H. rewrite R, H0 in H. cbn [exec] in H.
+    destruct a as [| | |ro| | | | | | | |]; try discriminate H. destruct ro as [e|]; injection H as <- <-; cbn [app].
+    + refine (io_finish g s s _ A HS _ _ _ _ _); auto.
+      * eapply chan_ok_quiet; eauto.
+      * apply ioK_raise.
+        -- discriminate.
+        -- eapply covb_head; eauto.
+        -- right. exists c, r. simpl. auto.
+        -- eapply covb_tail; eauto.
+    + refine (io_finish g s s _ A HS _ _ _ _ _); auto.
+      * eapply chan_ok_quiet; eauto.
+      * apply ioK_norm; auto; try (apply LG2; auto); try (eapply covb_tail; eauto).
+  - (* LG2: getsockopt(SO_SNDBUF) inside the try *)
+    assert (HQ : forall d, quiet (getc s d)).
+    { eapply all_quiet; eauto; intros d rr E; rewrite H0 in E; discriminate. }
+    unfold step in H. rewrite R, H0 in H. cbn [exec] in H.
+    destruct a as [| | |ro| | | | | | | |]; try discriminate H. destruct ro as [e|]; injection H as <- <-; cbn [app].
+    + refine (io_finish g s s _ A HS _ _ _ _ _); auto.
+      * eapply chan_ok_quiet; eauto.
+      * apply ioK_raise.
+        -- discriminate.
+        -- eapply covb_head; eauto.
+        -- right. exists c, r. simpl. auto.
+        -- eapply covb_tail; eauto.
+    + refine (io_finish g s s _ A HS _ _ _ _ _); auto.
+      * eapply chan_ok_quiet; eauto.
+      * apply ioK_norm; auto; try (apply LG3; auto); try (eapply covb_tail; eauto).
+  - (* LG3: setblocking(0) inside the try *)
+    assert (HQ : forall d, quiet (getc s d)).
+    { eapply all_quiet; eauto; intros d rr E; rewrite H0 in E; discriminate. }
+    unfold step in H. rewrite R, H0 in H. cbn [exec] in H.
+    destruct a as [| | |ro| | | | | | | |]; try discriminate H. destruct ro as [e|]; injection H as <- <-; cbn [app].
+    + refine (io_finish g s s _ A HS _ _ _ _ _); auto.
+      * eapply chan_ok_quiet; eauto.
+      * apply ioK_raise.
+        -- discriminate.
+        -- eapply covb_head; eauto.
+        -- right. exists c, r. simpl. auto.
+        -- eapply covb_tail; eauto.
+    + refine (io_finish g s s _ A HS _ _ _ _ _); auto.
+      * eapply chan_ok_quiet; eauto.
+      * apply ioK_norm; auto; try (apply LG4; auto); try (eapply covb_tail; eauto).
+  - (* LG4: add_channel inside the try *)
+    unfold step in H. rewrite R, H0 in H. cbn [exec] in H. injection H as <- <-. rewrite getth_setc. cbn [app].
+    destruct Hp as (P1 & P2 & P3 & P4 & P5).
+    refine (io_finish g s _ _ c HS _ _ _ _ _).
+    + others_tac HS H0.
+    + apply srv_ok_setc; auto.
+    + intro d. rewrite getth_setc. reflexivity.
+    + rewrite getc_setc_same. constructor; simpl; auto; try (intro; congruence); try (intros; congruence).
+      all: try (intros; lia).
+    + apply ioK_norm; auto; try (apply LG5; auto); try (eapply covb_tail; eauto).
+  - (* LG5: leave the try *)
+    assert (HQ : forall d, quiet (getc s d)).
+    { eapply all_quiet; eauto; intros d rr E; rewrite H0 in E; discriminate. }
+    unfold step in H. rewrite R, H0 in H. cbn [exec] in H. rewrite Hg in H. injection H as <- <-.
+    refine (io_finish g s s _ A HS _ _ _ _ _); auto.
+    * eapply chan_ok_quiet; eauto.
+    * apply ioK_norm; auto; try (apply LT; auto). eapply covb_tail; eauto.
 Qed.
 
 
